@@ -229,8 +229,10 @@ def shards(tier, seed):
             out.append({'part': 'cp', 'pos': pos, 'mode': 'json', 'lo': 0, 'hi': 0x110000, 'step': 1 if pos in SCALAR_POS else 16})
         for pos in POSITIONS:
             if pos not in SCALAR_POS:
-                out.append({'part': 'cp', 'pos': pos, 'mode': 'zinc', 'lo': 0, 'hi': 0x3000, 'step': 3})
-        out.append({'part': 'meta', 'maxlen': 2, 'positions': POSITIONS, 'modes': ['zinc', 'json']})
+                out.append({'part': 'cp', 'pos': pos, 'mode': 'zinc', 'lo': 0, 'hi': 0x3000, 'step': 3 if pos.endswith('meta') else 8})
+        out.append({'part': 'meta', 'maxlen': 2, 'positions': POSITIONS[:5], 'modes': ['zinc', 'json']})
+        out.append({'part': 'meta', 'maxlen': 2, 'positions': POSITIONS[5:7], 'modes': ['zinc', 'json']})
+        out.append({'part': 'meta', 'maxlen': 2, 'positions': POSITIONS[7:], 'modes': ['zinc', 'json']})
         out.append({'part': 'look', 'positions': POSITIONS, 'modes': ['zinc', 'json'], 'random': 300})
     else:
         for pos in POSITIONS:
